@@ -29,6 +29,16 @@ def gen_case(rng, i, tier):
     main = TG(rng.fork("m"), data, helpers, ["p0"], opt={"missing": 0.2}).template(3)
     if rng.chance(0.3):
         main = "a\n  {{> p0}}\nb\n" + main       # prevent_indent matters
+    if rng.chance(0.3):
+        # several hash arguments whose evaluation order is observable: more than one failing argument (which error is
+        # reported) – every compilation of the source must agree
+        keys = rng.shuffle(["k", "x", "aa", "zz", "m", "b", "q1", "é"])[:rng.range(2, 5)]
+        bad = ["(lookup nope1 \"x\")", "(eq nope2 1)", "(lookup nope3 0)", "(len nope4)", "(nosuchA 1)", "(nosuchB 1)", "(nosuchC 1)"]
+        main += rng.pick(["{{mk ", "{{> p0 ", "{{#mk ", "{{#> p0 "]) + " ".join("%s=%s" % (k, rng.pick(bad)) for k in keys) + "}}"
+        if main.count("{{#mk") > main.count("{{/mk"):
+            main += "{{/mk}}"
+        if main.endswith("}}") and "{{#> p0 " in main[main.rfind("{{#"):]:
+            main += "{{/p0}}"
     ops = [{"op": "reg_string", "reg": 0, "name": "p0", "src": p0},
            {"op": "reg_string", "reg": 0, "name": "main", "src": main},
            {"op": "reg_template", "reg": 0, "name": "pre", "src": main, "tname": "main"}]
